@@ -108,6 +108,7 @@ class SplitTheta:
             groups.setdefault(part[i], []).append(i)
         reps = sorted(g[0] for g in groups.values())
         self.theta_full = full
+        self.full_tables = dict(dom.tables)
         self.groups = [[full[i][1] for i in g] for g in groups.values()]
         self.theta = [full[i] for i in reps]
         self.K = len(self.theta)
